@@ -52,6 +52,9 @@ def run(tier, seed):
     for i in range(6 if quick else 40):
         sd = rng.randrange(1 << 30)
         items.append(('cond:%d' % sd, genprog.gen_cond_program(sd)[1], []))
+    for i in range(8 if quick else 50):
+        sd = rng.randrange(1 << 30)
+        items.append(('brk:%d' % sd, genprog.gen_break_program(sd)[1], []))
     # corpus files that carry their own "// args:" keep them; every program is crossed with the option sets
     optsets = OPTSETS_QUICK if quick else OPTSETS_THOROUGH
     if quick:
@@ -65,7 +68,7 @@ def run(tier, seed):
     else:
         items = [('%s|%s' % (n, ' '.join(o)), s, list(a) + o) for (n, s, a) in items for o in optsets]
     out = ctrace.run_pipeline(chk, items, rng, seed, nwalks=6 if quick else 16, maxlen=30, chunk_mode='some', chunk_limit=2 if quick else 4,
-                              keep_records=True)
+                              keep_records=True, cover=8 if quick else 20)
     try:
         progs = out['progs']
         cases, nsweeps, dropped = sweeps_for(chk, progs, rng, 3 if quick else 6, 2 if quick else 3, out['root'])
@@ -99,6 +102,7 @@ def run(tier, seed):
         chk.coverage = {
             'states': out['stats']['states'] + st['states'], 'transitions': out['stats']['transitions'] + st['transitions'],
             'traces_validated_against_impl': out['counts']['ACCEPT'] + nacc,
+            **ctrace.cover_cov(out),
             'samples': ctrace.sample_cases(out, 2) + ([sample] if sample else []),
             'programs': nprog, 'programs_rejected_by_compiler': len([p for p in progs if not p.ok]),
             'single_step_sweeps': nsweeps, 'single_steps_compared': nsweeps * 257 - undef, 'single_steps_undefined': undef,
